@@ -92,6 +92,46 @@ def check_writer(ctx, m, fn: ast.FunctionDef, label: str, informational: bool = 
                          for c in source.calls_in(fn, include_nested=True)):
         ctx.ob("C14.A5-destination-never-removed", fn, True, "%s: the state file is replaced only by the rename" % label,
                construct="no remove of %s in %s" % (sorted(dests), source.qualname(fn)))
+    # A6: the publish step is an atomic rename on ONE file system: os.rename / os.replace (shutil.move falls back to copy + unlink
+    # across file systems, truncating the live file), and the temporary file lives in the directory of the state file
+    for (rn, rc) in rens:
+        atomic = call_name(rc) in ("os.rename", "os.replace")
+        ctx.ob("C14.A6-atomic-publish-same-directory", rc, atomic,
+               "%s: published with %s" % (label, call_name(rc)) if atomic else
+               "%s: the temporary file is published with %s, which copies and then unlinks when source and destination are on different file "
+               "systems: the copy opens the live state file for writing, so a crash or ENOSPC during it leaves an empty or half-written file"
+               % (label, call_name(rc)), construct="%s is an atomic rename in %s" % (short(rc, 60), source.qualname(fn)))
+        tmp = rc.args[0]
+
+        def scratch_rooted(e: ast.AST, depth: int = 0) -> Optional[ast.AST]:
+            """the sub-expression that roots a path in the system's scratch directory (another file system than the instance, in general)"""
+            if depth > 5:
+                return None
+            for x in ast.walk(e):
+                if isinstance(x, ast.Call) and (call_name(x) or "").split(".")[0] == "tempfile":
+                    if not any(k.arg == "dir" for k in x.keywords):
+                        return x
+                if isinstance(x, ast.Constant) and isinstance(x.value, str) and (
+                        x.value in ("/tmp", "/var/tmp", "/dev/shm", "TMPDIR") or x.value.startswith(("/tmp/", "/var/tmp/", "/dev/shm/"))):
+                    return x
+                if isinstance(x, ast.Name) and x is not e:
+                    for v in match.assigned_value(fn, x.id):
+                        r = scratch_rooted(v, depth + 1)
+                        if r is not None:
+                            return r
+            if isinstance(e, ast.Name):
+                for v in match.assigned_value(fn, e.id):
+                    r = scratch_rooted(v, depth + 1)
+                    if r is not None:
+                        return r
+            return None
+        foreign = scratch_rooted(tmp)
+        ctx.ob("C14.A6-atomic-publish-same-directory", rc, foreign is None,
+               "%s: the temporary file is not placed in the system's scratch directory" % label if foreign is None else
+               "%s: the temporary file is created under %s, in general another file system than the instance directory (instance on GPFS/NFS, "
+               "scratch node-local): rename(2) then fails with EXDEV, and a copying fallback truncates the live state file"
+               % (label, short(foreign, 40)),
+               construct="%s: temporary file not in the scratch directory" % source.qualname(fn))
     for (on, oc) in opens:
         n += 1
         path_expr = oc.args[0] if oc.args else None
@@ -251,6 +291,9 @@ def run(ctx) -> None:
     ctx.rule("C14.A1-temp-then-rename", "state files are written to a temporary path that is then renamed; the final path is never opened for writing")
     ctx.rule("C14.A2-rename-on-success-only", "the rename is reachable only after the write completed normally")
     ctx.rule("C14.A3-close-before-rename", "the temporary file is closed before it is renamed over the state file")
+    ctx.rule("C14.A6-atomic-publish-same-directory", "the temporary file is published with os.rename / os.replace (not shutil.move, whose "
+             "cross-file-system fallback copies over the live file) and is not created in the system's scratch directory (tempfile.* "
+             "without dir=, /tmp, TMPDIR); that it IS next to the state file depends on attributes set elsewhere and is not decided")
     ctx.rule("C14.A5-destination-never-removed", "the state file itself is never removed/unlinked/truncated by its writer: only the "
              "atomic rename replaces it (between a remove and the rename no version exists on disk)")
     ctx.rule("C14.A4-serialiser-is-pure", "the serialiser does not modify the object it persists")
